@@ -111,8 +111,32 @@ def analyse(facts, tier):
                         ok = True       # the loop ran before the jump on every path
                     if ('b', h) in (pdom.get(('b', b)) or ()):
                         ok = True       # every path from the jump to the exit passes the loop
+                why_ok = 'an All-Notes-Off loop (CC123=0 on channels 0..15) dominates or post-dominates the jump'
+                if not ok:
+                    # path-sensitive: the paths that by-pass the loop take the false edge of the condition that guards it; the jump is
+                    # covered when that edge's facts contradict the guard facts of the jump (locals expanded to their definitions)
+                    gj_raw = guard_facts(pe, b, st, loops=False)
+                    gj = expand_locals(pe, gj_raw)
+                    have = {fact_str(f) for f in gj_raw}
+                    for h in heads:
+                        if not cfg.reaches(h, b):
+                            continue
+                        # the conditions under which the loop runs: guard facts of a statement of its body, minus those the jump shares
+                        body = [(bb, jj, ss) for bb, jj, ss in cfg.stmts() if any('callee_e' in y and mentions(y['callee_e'], member_named('rt_controllerChange')) for y in walk(ss['s']))
+                                and h in [e['block'] for e in cfg.dominating_edges(bb)]]
+                        if not body:
+                            continue
+                        ga = [f for f in guard_facts(pe, body[0][0], body[0][2], loops=False) if fact_str(f) not in have]
+                        if len(ga) != 1:
+                            continue
+                        skip = neg_fact(ga[0])
+                        if skip is None:
+                            continue
+                        if unsat(gj + expand_locals(pe, skip)):
+                            ok = True
+                            why_ok = 'the All-Notes-Off loop runs unless %s, which contradicts the condition of the jump: no feasible path jumps without it' % ' && '.join(fact_str(f) for f in skip)
                 obls.append(Obl('C09.R1', pe.name, 'm_currentPosition = ' + src, st['loc'], 'discharged' if ok else 'finding',
-                                why='an All-Notes-Off loop (CC123=0 on channels 0..15) dominates or post-dominates the jump' if ok else
+                                why=why_ok if ok else
                                 'a path jumps back without sending All-Notes-Off to the 16 channels', detail={'ano_loops': len(heads)}))
     if n < 3:
         raise build.AnalysisBroken('C09.R1: only %d jump sites found in processEvents' % n)
@@ -535,8 +559,20 @@ def r9_loop_end_row(facts):
             for y in t:
                 rec(y, conds)
     rec(pe.tree, [])
+    inits = {}
+    for b, j, st in pe.cfg.stmts():
+        if st['s'].get('k') == 'DeclStmt':
+            for v in st['s']['decls']:
+                if v.get('init') is not None:
+                    inits[v['id']] = v['init']
+    def text(c):
+        t = show(c)
+        for y in walk(c):
+            if isinstance(y, dict) and y.get('k') == 'DeclRefExpr' and y.get('id') in inits:
+                t += ' ' + show(inits[y['id']])      # a local flag stands for its definition
+        return t
     for brk, conds in hits:
-        txt = ' '.join(show(c) for c, pol in conds)
+        txt = ' '.join(text(c) for c, pol in conds)
         if 'caughtEnd' not in txt:
             continue
         n += 1
